@@ -111,7 +111,8 @@ ADSORBENTS = {
 def _adsorbate_model(r, nitrogen=False):
     if nitrogen:
         return {"molecular_diameter": 0.3, "polarizability": 0.0017403, "magnetic_susceptibility": 3.6e-08, "surface_density": 6.71e18}
-    return {"molecular_diameter": round(r.uniform(0.26, 0.45), 4), "polarizability": round(gen.log_uniform(r, 8e-4, 4e-3), 7), "magnetic_susceptibility": round(gen.log_uniform(r, 1e-8, 2e-7), 10),
+    # (weakly diamagnetic probes - H2 6.6e-9, He 3.1e-9 nm3 - belong to the physical range)
+    return {"molecular_diameter": round(r.uniform(0.26, 0.45), 4), "polarizability": round(gen.log_uniform(r, 8e-4, 4e-3), 7), "magnetic_susceptibility": round(gen.log_uniform(r, 2.5e-9, 2e-7), 11),
             "surface_density": round(gen.log_uniform(r, 3e18, 1.2e19), -14)}
 
 
@@ -119,7 +120,7 @@ def _material(r):
     if r.random() < 0.75:
         name = r.choice(sorted(ADSORBENTS))
         return name, dict(ADSORBENTS[name])
-    d = {"molecular_diameter": round(r.uniform(0.25, 0.4), 4), "polarizability": round(gen.log_uniform(r, 8e-4, 4e-3), 7), "magnetic_susceptibility": round(gen.log_uniform(r, 1e-8, 2e-7), 10),
+    d = {"molecular_diameter": round(r.uniform(0.25, 0.4), 4), "polarizability": round(gen.log_uniform(r, 8e-4, 4e-3), 7), "magnetic_susceptibility": round(gen.log_uniform(r, 4e-9, 2e-7), 11),
          "surface_density": round(gen.log_uniform(r, 8e18, 5e19), -14)}
     # a user's dictionary comes in whatever key order it was written, possibly with a note in it
     items = list(d.items())
